@@ -125,7 +125,7 @@ func c01(c *evid.Ctx) {
 	r := c.R.Fork("c01")
 	corpus := hostile.LoadCorpus(filepath.Join(repoDir(), "krpc/testdata/fuzz/Fuzz"))
 	cfgs := c01configs()
-	perCfg := c.Scale(40000, 600000) / len(cfgs) * c.NBatch
+	perCfg := c.Scale(40000, 1500000) / len(cfgs) * c.NBatch
 	if perCfg < 50 {
 		perCfg = 50
 	}
@@ -136,7 +136,7 @@ func c01(c *evid.Ctx) {
 		}
 		c01inbound(c, r, cf, perCfg, corpus, &alloc)
 	}
-	ops := c.Scale(200, 3000)
+	ops := c.Scale(200, 8000)
 	for i := 0; i < ops && c.NumViolations() < 20; i++ {
 		c01hostileReplies(c, r, gen.Pick(r, cfgs), i, &alloc)
 	}
